@@ -116,7 +116,10 @@ func (t *tBinaryProto) binaryPack(m erpc.Message) error {
 		return err
 	}
 
-	return m.SetSize(uint32(t.rwCounter.Writed()))
+	// the frame is on the wire: a size above the limit must not be reported as a failed write
+	// (the caller would send a second frame for the same message; the receiver enforces its limit)
+	m.SetSize(uint32(t.rwCounter.Writed()))
+	return nil
 }
 
 func (t *tBinaryProto) binaryUnpack(m erpc.Message) error {
